@@ -218,6 +218,45 @@ def perturbations(rng, m):
                 out.append(("kind-changed:" + k, n, m2))
                 continue
         out.append(("kind-changed:" + k, n))
+    out.extend(long_value_perturbations(rng, m))
+    return out
+
+
+def long_value_perturbations(rng, m):
+    """two messages alike but for ONE character far inside (or at the very end of) a long value - a child's
+    text or payload, a free-form attribute: (label, changed, base)"""
+    out = []
+    child = GRAMMAR[m["kind"]][3]
+
+    def variants(long_value, alphabet):
+        for pos in (rng.randrange(70, len(long_value) - 1), len(long_value) - 1):
+            c = rng.choice([a for a in alphabet if a != long_value[pos]])
+            yield pos, long_value[:pos] + c + long_value[pos + 1:]
+
+    if m["children"]:
+        i = rng.randrange(len(m["children"]))
+        pdom = PARTS[m["children"][i]["kind"]][2]
+        long_value = {"text": ("The quick brown fox jumps over the lazy dog. " * 6).strip(),
+                      "b64": "QUJDREVGR0hJSktM" * 12,
+                      "number": "1." + "0123456789" * 9}.get(pdom)
+        if long_value:
+            alphabet = "ABCDEFGHabcdefgh" if pdom != "number" else "0123456789"
+            base = clone(m)
+            base["children"][i]["value"] = long_value
+            for pos, v in variants(long_value, alphabet):
+                n = clone(base)
+                n["children"][i]["value"] = v
+                out.append(("child-long-value-changed-at-%d:%d/%d" % (pos, i, len(m["children"])), n, base))
+    free = [k for k in m["attrs"] if k not in ("state", "perm", "rule")]
+    if free:
+        k = rng.choice(sorted(free))
+        long_value = "N" + "abcdefghij" * 12
+        base = clone(m)
+        base["attrs"][k] = long_value
+        for pos, v in variants(long_value, "klmnopqrs"):
+            n = clone(base)
+            n["attrs"][k] = v
+            out.append(("attr-long-value-changed-at-%d:%s" % (pos, k), n, base))
     return out
 
 
